@@ -304,6 +304,7 @@ def inline_helpers(prog: Program, fn: FuncInfo, node: FuncNode | None = None, ex
     """Replace calls of simple private helpers by their body / result expression (on a copy)."""
     root = copy.deepcopy(node if node is not None else fn.node)
     excl = set(exclude)
+    spliced: set[str] = set(getattr(node if node is not None else fn.node, "_spliced", ()))
     for _ in range(depth):
         nested = {n.name: n for n in ast.walk(root) if isinstance(n, (ast.FunctionDef, ast.AsyncFunctionDef)) and n is not root}
         changed = False
@@ -347,11 +348,13 @@ def inline_helpers(prog: Program, fn: FuncInfo, node: FuncNode | None = None, ex
                             if ce is None:
                                 continue
                             _replace_node(s, call, ce, awaited=False)
+                            spliced.add(h.name)
                             changed = done = True
                             break
                         if kind == "expr":
                             new_expr = hb[0].value  # type: ignore[union-attr]
                             _replace_node(s, call, new_expr, awaited=isinstance(h, ast.AsyncFunctionDef))
+                            spliced.add(h.name)
                             changed = done = True
                             break
                         # block helper: only when the call is the statement's whole value
@@ -374,6 +377,7 @@ def inline_helpers(prog: Program, fn: FuncInfo, node: FuncNode | None = None, ex
                             s2.value = ast.Constant(None)  # type: ignore[attr-defined]
                             new_stmts.append(s2)
                         suite[i:i + 1] = new_stmts or [ast.copy_location(ast.Pass(), s)]
+                        spliced.add(h.name)
                         changed = done = True
                         break
                     if done:
@@ -383,6 +387,7 @@ def inline_helpers(prog: Program, fn: FuncInfo, node: FuncNode | None = None, ex
         if not changed:
             break
     ast.fix_missing_locations(root)
+    root._spliced = spliced  # type: ignore[attr-defined]  # names of the helpers read into this function
     return root
 
 
